@@ -2,14 +2,15 @@
     outcome (the failing-input search).
 
     case    = ( version content actor target tm op type state_key n extra )      (harness/src/c20.rs)
-    outcome = ( h ( helper dispatch levels auth built ) ) | ( 2 )
+    outcome = ( h ( helper dispatch levels auth built users ) ) | ( 2 )
 
     [spec_ok] looks at the implementation's outcome only: inside the domain of the property
     (levels readable in this room version, a target membership the action is about, a type
     without rules of its own) the helper's answer must be the verdict of the real [auth_check]
     (resp. of the real push condition, of state-res' user level), and that verdict must be the
     one the authorization rules (C08.Spec) give for the event and room built in [C20.Spec] —
-    outside C08's known deviation classes. *)
+    outside C08's known deviation classes; and the helpers' answers must be consistent among
+    themselves ([helpers_consistent]). *)
 From Base Require Import Prelude Sx Json Rules.
 From Gen Require Import RoomRules TypeAliases PowerLevelTables.
 From C08 Require Import Types Ids Codec Model Spec Known.
@@ -160,10 +161,13 @@ Definition model_out (k : tcase) (r : auth_rules) : sx :=
   let p := of_content uid_ok (k_content k) in
   let auth := auth_side k r p in
   match p with
-  | None => SL [SN 1; SL [none_sx; none_sx; SL []; auth; built_ok k]]
+  | None => SL [SN 1; SL [none_sx; none_sx; SL []; auth; built_ok k; none_sx]]
   | Some pl =>
       match helper_side k pl with
-      | (h, hs, ds, ls) => SL [SN (if h then 0 else 1); SL [hs; ds; ls; auth; built_ok k]]
+      | (h, hs, ds, ls) =>
+          SL [SN (if h then 0 else 1);
+              SL [hs; ds; ls; auth; built_ok k;
+                  SL [lvl (for_user pl (k_actor k)); lvl (for_user pl (k_target k))]]]
       end
   end.
 
@@ -211,11 +215,30 @@ Definition rules_ok (k : tcase) (verdict : bool) : bool :=
       || Bool.eqb verdict (spec_auth uid_ok sn_ok no_verify (k_v k) ev st)
   end.
 
+(** The helpers among themselves, on the implementation's answers: [user_can_do] and the
+    untargeted helpers say "the user's level reaches [for_action]"; the targeted ones add "the
+    target is strictly below"; [for_action] of a send action is [for_message] / [for_state]. *)
+Definition helpers_consistent (op : N) (h d lv us : sx) : bool :=
+  match us, lv with
+  | SL [SN ua; SN ut], SL (SN req :: rest) =>
+      let reach := (ua >=? req)%Z in
+      let below := (ut <? ua)%Z in
+      let is_h (b : bool) := match h with SL [SN x] => Bool.eqb (negb (x =? 0)%Z) b | _ => false end in
+      let is_d (b : bool) := match d with SL [SN x] => Bool.eqb (negb (x =? 0)%Z) b | _ => false end in
+      if (op =? 0) || (op =? 1) || (op =? 2) then is_h (reach && below) && is_d (reach && below)
+      else if op =? 7 then match h with SL [SN x] => (x =? ua)%Z && (req >=? ua)%Z | _ => false end
+      else if (op =? 4) || (op =? 5) then
+        is_h reach && is_d reach && match rest with [SN x] => (x =? req)%Z | _ => false end
+      else is_h reach && is_d reach
+  | _, _ => true
+  end.
+
 Definition spec_ok (k : tcase) (impl : sx) : bool :=
   match impl with
   | SL [SN 2] => false                                    (* a panic *)
-  | SL [_; SL [h; d; _; a; _]] =>
+  | SL [_; SL [h; d; lv; a; _; us]] =>
       let op := k_op k in
+      helpers_consistent op h d lv us &&
       (* the dispatchers answer as the helper they stand for *)
       (match h, d with
        | SL [SN x], SL [SN y] => (x =? y)%Z
